@@ -87,6 +87,24 @@ impl OwnedEntry {
 }
 
 /// Register a file of an archive in maps.
+/// Registers a directory and, recursively, its parents, so that each of them
+/// is listed exactly once in its own parent (archives may lack members for
+/// directories, or list them after their content).
+fn register_dir(dirs: &mut HashMap<SharedString, Vec<OwnedEntry>>, id: &SharedString) {
+    if dirs.contains_key(id) {
+        return;
+    }
+    dirs.insert(id.clone(), Vec::new());
+
+    if let Some(parent_id) = DirEntry::Directory(id).parent_id() {
+        let parent_id = SharedString::from(parent_id);
+        register_dir(dirs, &parent_id);
+        if let Some(parent) = dirs.get_mut(&parent_id) {
+            parent.push(OwnedEntry::Dir(id.clone()));
+        }
+    }
+}
+
 fn register_file(
     file: tar::Entry<'_, impl io::Read>,
     files: &mut HashMap<FileDesc, (u64, u64)>,
@@ -144,11 +162,10 @@ fn register_file(
             files.insert(desc.clone(), (start, size));
             OwnedEntry::File(desc)
         } else {
-            if !dirs.contains_key(&id) {
-                dirs.insert(id.clone(), Vec::new());
-            }
-            OwnedEntry::Dir(id)
+            register_dir(dirs, &id);
+            return Some(());
         };
+        register_dir(dirs, &parent_id);
         dirs.entry(parent_id).or_default().push(entry);
 
         Some(())
